@@ -270,10 +270,29 @@ def cdc(ctx, mf, tier):
             spec = bv(1 << 63)     # too short: the invalid/minimum token (i64::MIN)
         ctx.prove(f"c03_cdc_token_L{L}", [], z3.And([r == spec for r in results]), inputs=data, functions=F,
                   bounds=f"every key of {L} bytes, one-shot and every 2-way chunking ({len(results)} runs): first 8 bytes big-endian as i64 (MIN->MAX), "
-                         "shorter keys give the invalid token", backend="BV", assumes=LIB, witness=False)
+                         "shorter keys give the invalid token", backend="BV", assumes=LIB, witness=False, replay=lambda m, L=L: replay_cdc(m, L))
 
 
 # ------------------------------------------------------------------ native replays
+def replay_cdc(m, L):
+    from . import native
+    data = [int(m.get(f"d{i}") or 0) & 0xff for i in range(L)]
+    if L >= 8:
+        v = int.from_bytes(bytes(data[:8]), "big", signed=True)
+        want = (1 << 63) - 1 if v == -(1 << 63) else v
+    else:
+        want = -(1 << 63)
+    nat = native.Native("drv")
+    bad = []
+    runs = [("cdc 0 " + " ".join(map(str, data))).strip()] + [(f"cdc 1 {s} " + " ".join(map(str, data))).strip() for s in range(0, L + 1)]
+    for cmd in runs:
+        got = nat.ask(cmd)
+        if got != str(want):
+            bad.append({"cmd": cmd, "native": got, "expected": want})
+    nat.close()
+    return native.record("C03", f"cdc_token_L{L}", {"key": data, "mismatches": bad[:4]}, bool(bad))
+
+
 def _s64(v):
     v = (v or 0) & M64
     return v - (1 << 64) if v >= (1 << 63) else v
